@@ -303,10 +303,21 @@ class Parser:
             init = None
             if self.try_op('='):
                 init = self.assign()
-            if self.at_op(','):
-                raise ExtractError('cmini: multiple declarators not supported')
+            decls = [('decl', ty, name[1], init)]
+            while self.try_op(','):
+                # further declarators of the same (non-pointer) type: `int i = 0, j = 0;`
+                if '*' in ty or self.at_op('*'):
+                    raise ExtractError('cmini: several pointer declarators in one declaration are not supported')
+                nm = self.peek()
+                if nm[0] != 'id':
+                    raise ExtractError('cmini: declarator name expected')
+                self.i += 1
+                if self.at_op('['):
+                    raise ExtractError('cmini: array declarator not supported')
+                ini = self.assign() if self.try_op('=') else None
+                decls.append(('decl', ty, nm[1], ini))
             self.eat_op(';')
-            return ('decl', ty, name[1], init)
+            return decls[0] if len(decls) == 1 else ('block', decls)
         e = self.expr()
         self.eat_op(';')
         return ('expr', e)
